@@ -12,8 +12,10 @@
                                                              code (finding F-C19b); proved outside that class
   * `datagram_decision_local`, `dtls_decision_prefix_stable`, `dtls_decision_seg_independent`   datagram transports
   * `ignored_is_passthrough`                                 verdict ignore ⇒ single relay layer, no hooks, byte streams exact
+  * `relay_sends_only_what_was_received`                     every history, no assumption: sent is a prefix of received
   * `ignored_is_passthrough_to_the_end`, `half_close_propagation`   … through the closing events, for admissible histories
   * `not_excluded_is_intercepted`, `passthrough_only_if_excluded`
+  * `session_decides_where_next_layer_answers`, `ignored_flight_any_segmentation`   verdict + segmentation + relay, whole history
   * `verdict_uses_options_in_force`, `verdict_history_independent`   one addon instance, options changed between connections
   * `tls_ignore_passthrough`                                 ClientTLSLayer `ignore_connection` branch
 -/
@@ -431,6 +433,16 @@ theorem ignored_is_passthrough_to_the_end {Pat : Type} (E : Env Pat) (c : NCfg P
     exact hI.2.2
   · exact (hdone hp).1
 
+/-- **relay_sends_only_what_was_received** — for EVERY event history, with NO assumption on the environment (admissible or
+    not, any phase the connection ends in: undecided, aborted, intercepted, connecting, relaying, finished, failed): the
+    bytes the model has sent to either peer are a prefix of the bytes received from the other — nothing is invented,
+    altered, reordered or duplicated.  (`ignored_is_passthrough` / `_to_the_end` add that the prefix is everything.) -/
+theorem relay_sends_only_what_was_received {Pat : Type} (E : Env Pat) (c : NCfg Pat) (connected : Bool) (evs : List Ev) :
+    ∀ b, ∃ t, sentTo b (run E c (Sess.init c.tcp connected) evs).out ++ t = recvFrom b evs := by
+  have h := run_inv3 E c (Sess.init c.tcp connected) [] evs (init_inv c.tcp connected)
+    (inv3_of_nil _ _ (fun b => by simp [Sess.init, sentTo]))
+  simpa using h
+
 /-- **half_close_propagation** — TCPLayer.relay_messages on EOF: while the other side can still be read the EOF is passed on
     as a half-close of the other side (once: only if that side is still writable) and the relay goes on, so the other
     direction keeps flowing; when neither side can be read any more both connections that are not yet closed are closed
@@ -492,6 +504,67 @@ theorem passthrough_only_if_excluded {Pat : Type} (E : Env Pat) (c : NCfg Pat) (
       rcases hig with hig | hig
       · have := h3 _ hig; simp [LK.intercepts] at this
       · have := h3 _ hig; simp [LK.intercepts] at this
+
+/-! ## the verdict and the connection: whole-history forms -/
+
+/-- **session_decides_where_next_layer_answers** — the connection model, fed the first flight segment by segment, stays
+    undecided exactly as long as `_next_layer` says NeedsMoreData on the accumulated bytes and then instantiates exactly the
+    stack `_next_layer` returns at that point (`askSegs` is therefore what the NextLayer really does). -/
+theorem session_decides_where_next_layer_answers {Pat : Type} (E : Env Pat) (c : NCfg Pat) (connected : Bool)
+    (segs : List Bytes) :
+    match askSegs (fun d => nextLayer E c d []) [] segs with
+    | .needMore => (run E c (Sess.init c.tcp connected) (segs.map Ev.dataC)).phase = .undecided
+    | .ok st => (run E c (Sess.init c.tcp connected) (segs.map Ev.dataC)).stack = st ∧
+        ((run E c (Sess.init c.tcp connected) (segs.map Ev.dataC)).phase = .relay ∨
+         (run E c (Sess.init c.tcp connected) (segs.map Ev.dataC)).phase = .connecting ∨
+         (run E c (Sess.init c.tcp connected) (segs.map Ev.dataC)).phase = .intercepted) := by
+  have := session_asks E c (Sess.init c.tcp connected) segs rfl rfl (by intro e he; simp [Sess.init] at he)
+  simp only [Sess.init] at this ⊢
+  cases h : askSegs (fun d => nextLayer E c d []) [] segs with
+  | needMore => rw [h] at this; exact this.1
+  | ok st => rw [h] at this; exact this
+
+/-- **ignored_flight_any_segmentation** — verdict, segmentation and relay in one statement (TCP).  If the whole first flight
+    is excluded by the rules, then for EVERY segmentation of it whose deciding prefix has at least three bytes and does not
+    end inside the request line (F-C19b), the connection ends up with the single pass-through layer as its stack — never a
+    TLS or HTTP layer — and every byte of the flight, including the segments buffered before the verdict, has been sent to
+    the server in order (server already connected) or is queued in order behind the pending connect. -/
+theorem ignored_flight_any_segmentation {Pat : Type} (E : Env Pat) (c : NCfg Pat) (connected : Bool)
+    (segs : List Bytes) (p : Bytes) (htcp : c.tcp = true)
+    (hd : decidingPrefix (fun d => ignoreConnection E c.toCfg d []) [] segs = some p)
+    (h3 : 3 ≤ p.length) (hguard : reqLinePending p = false)
+    (hv : ignoreConnection E c.toCfg segs.flatten [] = .ok true) :
+    let s := run E c (Sess.init c.tcp connected) (segs.map Ev.dataC)
+    s.stack = [relayLayer c.tcp (!c.showIgnored)] ∧ (s.phase = .relay ∨ s.phase = .connecting) ∧
+    (s.phase = .relay → sentTo true s.out = segs.flatten) ∧
+    (s.phase = .connecting → sentTo true s.out = [] ∧ recvFrom true s.queue = segs.flatten) := by
+  have hask : askSegs (fun d => ignoreConnection E c.toCfg d []) [] segs = .ok true := by
+    rw [decision_seg_independent_partial E c.toCfg [] segs p htcp hd h3 hguard]; exact hv
+  have hrel := askSegs_ignore_relay E c [] segs hask
+  have hs := session_decides_where_next_layer_answers E c connected segs
+  rw [hrel] at hs
+  obtain ⟨hstack, hphase⟩ := hs
+  have hrecv : ∀ l : List Bytes, recvFrom true (l.map Ev.dataC) = l.flatten := by
+    intro l; induction l with
+    | nil => rfl
+    | cons x xs ih => simp [recvFrom, ih]
+  obtain ⟨_, h1, h2, h3'⟩ := ignored_is_passthrough E c connected (segs.map Ev.dataC)
+  have hnotint : (run E c (Sess.init c.tcp connected) (segs.map Ev.dataC)).phase ≠ .intercepted := by
+    intro hp
+    have hI := run_inv E c (Sess.init c.tcp connected) [] (segs.map Ev.dataC) (init_inv c.tcp connected)
+    unfold MitmVerif.C19.Inv at hI; rw [hp] at hI
+    have := hI (!c.showIgnored)
+    rw [hstack] at this
+    cases c.tcp <;> simp [relayLayer] at this
+  refine ⟨hstack, ?_, ?_, ?_⟩
+  · rcases hphase with h | h | h
+    · exact Or.inl h
+    · exact Or.inr h
+    · exact absurd h hnotint
+  · intro hp; rw [h1 hp true, hrecv]
+  · intro hp
+    have := h2 (Or.inr hp) true
+    exact ⟨this.1, by rw [this.2, hrecv]⟩
 
 /-! ## histories on one addon instance -/
 
